@@ -622,3 +622,10 @@ def _check_context_settings(prog: Program, L: Ledger, subj) -> None:
                 L.check(slot in cs.items or in_kwargs, "S4", f"{ci.name}.{pname}", getter.where,
                         f"simulation setting `{pname}` lives in context slot `{slot}`, which {ctxc.name}.to_dict does not emit (and it is not a kwargs entry)",
                         f"set sim.{pname} to a non-default value; {ci.name}.from_dict(sim.to_dict()).{pname} is the default again", pname)
+                # … and what is written under that key is the slot itself, not a quantity computed from other state
+                val = cs.items.get(slot)
+                if isinstance(val, EV):
+                    roots = {n_.attr for n_ in ast.walk(val.expr) if isinstance(n_, ast.Attribute) and isinstance(n_.value, ast.Name) and n_.value.id == "self"}
+                    L.check(bool(roots) and roots <= {slot, "_" + slot, slot.lstrip("_")}, "S5", f"{ci.name}.{pname}:context-value", f"{val.func.module.relpath}:{val.expr.lineno}",
+                            f"simulation setting `{pname}` (context slot `{slot}`) is serialised as `{norm(val.expr)[:80]}`, which does not read that slot",
+                            f"set sim.{pname} to a value different from `{norm(val.expr)[:60]}`; the rebuilt simulation has the latter", norm(val.expr)[:100])
